@@ -150,7 +150,7 @@ REAL_MODULES = ["buffer", "cell", "charset", "color", "line", "parser", "pen", "
                 "terminal::cursor", "terminal::dirty_lines", "util", "vt"]
 
 
-def run(repo="/repo", modules=None, function=None, keep=None, rlimit=None, threads=16,
+def run(repo="/repo", modules=None, function=None, keep=None, rlimit=30, threads=16,
         multiple_errors=10, contracts_dir=None, extra_args=(), timeout=3600, vacuity=False):
     res = Result()
     t0 = time.time()
